@@ -11,6 +11,7 @@ const (
 	UserTypeNotFound        = "user type not found"
 	ParentNotFound          = "parent directive not found"
 	MacroNotFound           = "macro not found"
+	TooManyDirectives       = "the expansion of the macros gives too many directives"
 	ServerNotFound          = "server not found"
 	JsonRpcMethodNotFound   = "JSON-RPC method not found"
 	JsonRpcResourceNotFound = "resource not found"
